@@ -34,6 +34,29 @@ def benign (e : Err) : Bool := e == .valueError || e == .other "IVFCReadOnlyErro
 def renderValid : Option Bool → String
   | none => "N" | some true => "T" | some false => "F"
 
+/-- the abstraction tie of C18: when the geometry is regular, the levels and master hashes after the model's `lv4Write` are what
+    `absWrite` (the function the hash-path theorem is about) computes from the levels before; a difference is appended to the token -/
+def absCheck (H : Bytes → Bytes) (c c' : Cont) (pi : Nat) (d : Bytes) : String :=
+  match c.parts[pi]?, c'.parts[pi]? with
+  | some p, some p' =>
+    let data := if p.seek + d.length > p.ivfc.lv4.size then d.take (p.ivfc.lv4.size - p.seek) else d
+    if data.isEmpty || !geomOK (p.P c.F) p.tree p.master then ""
+    else
+      -- `levelBytes P t i = levelFrom (dpfsView P t.dp) P t i` by definition; the view is computed once per state
+      let V := dpfsView (p.P c.F) p.tree.dp
+      let l0 := levelFrom V (p.P c.F) p.tree 0
+      let l1 := levelFrom V (p.P c.F) p.tree 1
+      let l2 := levelFrom V (p.P c.F) p.tree 2
+      let l3 := levelFrom V (p.P c.F) p.tree 3
+      let L : Nat → Bytes := fun j => if j = 0 then l0 else if j = 1 then l1 else if j = 2 then l2 else if j = 3 then l3
+        else levelFrom V (p.P c.F) p.tree j
+      match absWrite H p.bsOf 3 p.seek data (L, p.master) with
+      | .error _ => "!abs-error"
+      | .ok (L', m') =>
+        let V' := dpfsView (p'.P c'.F) p'.tree.dp
+        if (List.range 4).all (fun j => L' j == levelFrom V' (p'.P c'.F) p'.tree j) && m' == p'.master then "" else "!abs-differs"
+  | _, _ => ""
+
 /-- run the ops; stops after an error that may leave the real objects half-updated -/
 def saveRun (kind : Kind) (cm : Option CmacScheme) : Cont → List SaveOp → List String → List String × Bytes
   | c, [], acc => (acc.reverse, c.F)
@@ -46,7 +69,7 @@ def saveRun (kind : Kind) (cm : Option CmacScheme) : Cont → List SaveOp → Li
     match op with
     | .read pi n => continue' ((contRead H c pi n).map fun (d, c') => ("b:" ++ toHexW d, c'))
     | .seek pi off wh => continue' ((contSeek c pi off wh).map fun (n, c') => ("n:" ++ toString n, c'))
-    | .write pi d => continue' ((lv4Write H Prim.cmac cm c pi d).map fun (n, c') => ("n:" ++ toString n, c'))
+    | .write pi d => continue' ((lv4Write H Prim.cmac cm c pi d).map fun (n, c') => ("n:" ++ toString n ++ absCheck H c c' pi d, c'))
     | .blk pi l b v dv => continue' ((contBlock H c pi l b v dv).map fun ((d, val), c') => ("k:" ++ toHexW d ++ "/" ++ renderValid val, c'))
     | .dp pi off n => continue' ((contDpRead c pi off n).map fun d => ("b:" ++ toHexW d, c))
     | .dpw pi off d => continue' ((contDpWrite c pi off d).map fun (n, c') => ("n:" ++ toString n, c'))
